@@ -5,8 +5,8 @@ import kernels, tvlib
 import solverlib as sl
 import compos
 
-GEN_SOURCES = ["skglm/solvers/anderson_cd.py", "skglm/solvers/common.py", "skglm/penalties/separable.py", "skglm/datafits/single_task.py"]
-EXTRA_TARGETS = ["Gen/KernCD.vo", "Gen/KernACD.vo", "Gen/DfSingle.vo", "Gen/PenSeparable.vo", "Gen/PenBlock.vo"]
+GEN_SOURCES = ["skglm/solvers/anderson_cd.py", "skglm/solvers/common.py", "skglm/penalties/separable.py", "skglm/datafits/single_task.py", "skglm/solvers/group_bcd.py", "skglm/datafits/group.py"]
+EXTRA_TARGETS = ["Gen/KernCD.vo", "Gen/KernACD.vo", "Gen/DfSingle.vo", "Gen/PenSeparable.vo", "Gen/PenBlock.vo", "Gen/KernBCD.vo", "Gen/DfGroup.vo"]
 TRUSTED_BASE = [
     "Coq 8.16.1 kernel (coqc); vm_compute only in correspondence files",
     "axioms: Reals (sig_forall_dec, sig_not_dec), functional_extensionality_dep, Classical_Prop.classic",
@@ -28,8 +28,9 @@ def correspondence(tier, rng):
     kc = kernels.gen_cd_kernels(rng, 80 if tier == "quick" else 500) + kernels.gen_blocks(rng, 60 if tier == "quick" else 300)
     kc += [c for c in kernels.gen_penalties(rng, 120 if tier == "quick" else 600) if "subdiff_distance" in c[0]]
     r = tvlib.run_cases(kc, ["Gen.ProxFuncs", "Gen.PenSeparable", "Gen.PenBlock", "Gen.SparseOps", "Gen.DfSingle", "Gen.KernCD", "Gen.KernACD"], "C20", shard=40, jobs=16)
-    return dict(cases=len(kc), bad=r["bad"][:10], errors=r["errors"], distribution=dict(kernel_cases=len(kc)),
+    base = dict(cases=len(kc), bad=r["bad"][:10], errors=r["errors"], distribution=dict(kernel_cases=len(kc)),
                 distinct_nontrivial=len({c[0] for c in kc}), samples=[dict(case=kc[0][0][:300])])
+    return kernels.add_bcd_kernel_corr(base, rng, 105 if tier == "quick" else 700, "C20k")
 
 
 def oracle(tier, rng, deep=False):
